@@ -150,6 +150,28 @@ def gen_cases(seed: int, n_compiled: int, n_relayout: int, n_random: int, prop: 
         ops = relayout(base.ops, r, leading_jump=lead)
         compiled_cls = "relayout_leading_jump" if lead else "relayout"
         cases.append(Case(f"relayout:{seed}:{j}<-{base.name}", ops, base.infos, base.coros, src=None, cls=compiled_cls))
+    # twins: the last routine once more as a further routine (its own jumps moved along): whatever is numbered or
+    # named per routine (switch ids, label names, caches) meets an equal twin in the same file
+    from gen_ssb import JUMP_IDX
+    import copy
+    for j in range(max(1, n_relayout // 6) if compiled else 0):
+        r = random.Random(f"{prop}-twin-{seed}-{j}")
+        base = r.choice(compiled + cases)
+        if not base.ops or not base.ops[-1]:
+            continue
+        last = base.ops[-1]
+        own = {op["off"] for op in last}
+        shift = max(op["off"] for rt in base.ops for op in rt) + r.randint(1, 5) - min(own) + 1
+        twin = copy.deepcopy(last)
+        for op in twin:
+            ji = JUMP_IDX.get(op["code"])
+            if ji is not None and ji < len(op["params"]) and op["params"][ji][0] == "i" and op["params"][ji][1] in own:
+                op["params"][ji] = ["i", op["params"][ji][1] + shift]
+            op["off"] += shift
+        info = dict(base.infos[-1])
+        coro = base.coros[-1]
+        cases.append(Case(f"twin:{seed}:{j}<-{base.name}", copy.deepcopy(base.ops) + [twin], list(base.infos) + [info],
+                          list(base.coros) + [coro + "_twin" if isinstance(coro, str) else coro], src=None, cls="twin"))
     cases = compiled + cases
     for k in range(n_random):
         r = random.Random(f"{prop}-random-{seed}-{k}")
